@@ -3,6 +3,7 @@ package main
 import (
 	"bytes"
 	"fmt"
+	"strings"
 
 	"github.com/nspcc-dev/neo-go/pkg/core/interop"
 	istorage "github.com/nspcc-dev/neo-go/pkg/core/interop/storage"
@@ -12,12 +13,51 @@ import (
 	"verif/harness/internal/hx"
 )
 
+// the option words handed to System.Storage.Find: the accepted combinations that do not look inside the
+// values, and rejected ones (conflicting bits, PickN without Deserialize, unknown bits).
+var (
+	findGoodOpts = []int64{0, 0, istorage.FindRemovePrefix, istorage.FindKeysOnly, istorage.FindKeysOnly | istorage.FindRemovePrefix, istorage.FindValuesOnly}
+	findBadOpts  = []int64{
+		istorage.FindKeysOnly | istorage.FindValuesOnly,
+		istorage.FindValuesOnly | istorage.FindRemovePrefix,
+		istorage.FindKeysOnly | istorage.FindDeserialize,
+		istorage.FindKeysOnly | istorage.FindPick0,
+		istorage.FindPick0 | istorage.FindPick1 | istorage.FindDeserialize,
+		istorage.FindPick0,
+		istorage.FindPick1 | istorage.FindRemovePrefix,
+		1 << 6, 1 << 8, 1<<6 | istorage.FindKeysOnly, 1 << 20,
+	}
+)
+
+type findItem struct {
+	key, val []byte
+	hasK     bool
+	hasV     bool
+}
+
+func showFindItems(l []findItem) string {
+	var sb strings.Builder
+	fmt.Fprintf(&sb, "%d", len(l))
+	part := func(b []byte, has bool) string {
+		if !has {
+			return "_"
+		}
+		return hx.Hex(b)
+	}
+	for _, e := range l {
+		sb.WriteString(" " + part(e.key, e.hasK) + ":" + part(e.val, e.hasV))
+	}
+	return sb.String()
+}
+
 // opFind drives System.Storage.Find (interop/storage/find.go) on the DAO of a store: the iterator
 // a contract gets, with the KeysOnly / RemovePrefix / ValuesOnly / Backwards options, read up to
 // lim items and then cancelled the way the interop context does it at the end of an execution.
+// Every call is a model line: what the iterator delivered item by item (`_` = part not delivered),
+// or `err` for a rejected option word.
 func (r *runner) opFind(id int, pfx []byte, opts int64, lim int) {
 	n := r.w.nodes[id]
-	var keys, vals [][]byte
+	var items []findItem
 	obs := hx.Safe(func() string {
 		ic := &interop.Context{VM: vm.New(), DAO: n.d}
 		ic.VM.Estack().PushVal(opts)
@@ -32,63 +72,67 @@ func (r *runner) opFind(id int, pfx []byte, opts int64, lim int) {
 			switch {
 			case opts&istorage.FindKeysOnly != 0:
 				b, _ := v.TryBytes()
-				keys = append(keys, bytes.Clone(b))
+				items = append(items, findItem{key: bytes.Clone(b), hasK: true})
 			case opts&istorage.FindValuesOnly != 0:
 				b, _ := v.TryBytes()
-				vals = append(vals, bytes.Clone(b))
+				items = append(items, findItem{val: bytes.Clone(b), hasV: true})
 			default:
 				s := v.Value().([]stackitem.Item)
 				kb, _ := s[0].TryBytes()
 				vb, _ := s[1].TryBytes()
-				keys = append(keys, bytes.Clone(kb))
-				vals = append(vals, bytes.Clone(vb))
+				items = append(items, findItem{key: bytes.Clone(kb), val: bytes.Clone(vb), hasK: true, hasV: true})
 			}
-			if lim > 0 && max(len(keys), len(vals)) >= lim {
+			if lim > 0 && len(items) >= lim {
 				break
 			}
 		}
 		ic.Finalize()
 		return "ok"
 	})
+	r.o.Count("op:find")
+	r.o.Count(fmt.Sprintf("find:opts=%#x", opts))
+	line := fmt.Sprintf("find %d %02x %d %s %d %d", id, daoSP, daoID, hx.Hex(pfx), opts, lim)
+	valid := false
+	for _, g := range findGoodOpts {
+		if opts&^istorage.FindBackwards == g {
+			valid = true
+		}
+	}
+	if !valid {
+		// the oracle: an option word outside the documented combinations is refused
+		if obs != "err" {
+			r.fail("find-mismatch", "System.Storage.Find store=%d opts=%#x: accepted (%s), must be refused", id, opts, obs)
+		}
+		r.o.Count("find:rejected")
+		r.line(line, obs)
+		return
+	}
 	bw := opts&istorage.FindBackwards != 0
 	sr := seekRange{pfx: append(bytes.Clone(daoPrefix), pfx...), bw: bw, cut: true, lim: lim}
 	want := specSeek(r.w.view(id, 0), sr)
 	// what the options make of the expected (cut) pairs
-	bad := obs != "ok"
-	if !bad {
+	bad := obs != "ok" || len(items) != len(want)
+	for i := 0; !bad && i < len(want); i++ {
 		if opts&istorage.FindValuesOnly == 0 {
-			bad = len(keys) != len(want)
-			for i := 0; !bad && i < len(want); i++ {
-				k := want[i].k
-				if opts&istorage.FindRemovePrefix == 0 {
-					k = append(bytes.Clone(pfx), k...)
-				}
-				bad = !bytes.Equal(keys[i], k)
+			k := want[i].k
+			if opts&istorage.FindRemovePrefix == 0 {
+				k = append(bytes.Clone(pfx), k...)
 			}
+			bad = bad || !items[i].hasK || !bytes.Equal(items[i].key, k)
+		} else {
+			bad = bad || items[i].hasK
 		}
-		if opts&istorage.FindKeysOnly == 0 && !bad {
-			bad = len(vals) != len(want)
-			for i := 0; !bad && i < len(want); i++ {
-				bad = !bytes.Equal(vals[i], want[i].v)
-			}
+		if opts&istorage.FindKeysOnly == 0 {
+			bad = bad || !items[i].hasV || !bytes.Equal(items[i].val, want[i].v)
+		} else {
+			bad = bad || items[i].hasV
 		}
 	}
 	if bad {
-		r.fail("find-mismatch", "System.Storage.Find store=%d prefix=%s opts=%#x lim=%d: %s keys %x values %x, want %s", id, hx.Hex(pfx), opts, lim, obs, keys, vals, showKVs(want))
+		r.fail("find-mismatch", "System.Storage.Find store=%d contract=%d sp=%02x prefix=%s opts=%#x lim=%d: %s %s, want %s", id, daoID, daoSP, hx.Hex(pfx), opts, lim, obs, showFindItems(items), showKVs(want))
 	}
-	r.o.Count("op:find")
-	r.o.Count(fmt.Sprintf("find:opts=%#x", opts))
-	if opts&(istorage.FindKeysOnly|istorage.FindValuesOnly) != 0 || obs != "ok" {
-		return // judged by the oracle only
+	if obs == "ok" {
+		obs = showFindItems(items)
 	}
-	// model line: the (prefix-cut) pairs
-	got := make([]kv, len(keys))
-	for i := range keys {
-		k := keys[i]
-		if opts&istorage.FindRemovePrefix == 0 && bytes.HasPrefix(k, pfx) {
-			k = k[len(pfx):]
-		}
-		got[i] = kv{k, vals[i]}
-	}
-	r.line(fmt.Sprintf("find %d 70 %d %s - %s 0 %d", id, daoID, hx.Hex(pfx), b01(bw), lim), showKVs(got))
+	r.line(line, obs)
 }
